@@ -92,6 +92,8 @@ def _always_returns(stmts):
             return True
         if isinstance(st, ast.If) and st.orelse and _always_returns(st.body) and _always_returns(st.orelse):
             return True
+        if isinstance(st, ast.Try) and not st.finalbody and all(_always_returns(h.body) for h in st.handlers) and (_always_returns(st.body) or (st.orelse and _always_returns(st.orelse))):
+            return True
     return False
 
 
@@ -110,9 +112,27 @@ def _restructure(stmts, on_return):
         if not _returns([st]):
             out.append(st)
             continue
+        rest = stmts[i + 1:]
+        if isinstance(st, ast.Try) and not st.finalbody and not _returns(st.body):
+            # returns inside handlers / else: what follows the try runs only when no handler returned, i.e. it belongs to
+            # the else clause (exceptions raised there are not caught by the handlers, exactly as before)
+            falls = [h for h in st.handlers if not _always_returns(h.body)]
+            if falls and rest and any(_returns(h.body) for h in st.handlers):
+                raise _NoRestructure()
+            if any(_returns(h.body) and not _always_returns(h.body) for h in st.handlers):
+                raise _NoRestructure()
+            for h in st.handlers:
+                h.body = _restructure(h.body, on_return) or [ast.Pass(lineno=getattr(st, "lineno", 1), col_offset=0)]
+            if falls:
+                st.orelse = _restructure(list(st.orelse), on_return)
+                out.append(st)
+                out.extend(_restructure(rest, on_return))
+            else:
+                st.orelse = _restructure(list(st.orelse) + rest, on_return)
+                out.append(st)
+            return out
         if not isinstance(st, ast.If):
             raise _NoRestructure()
-        rest = stmts[i + 1:]
         body_ret = _always_returns(st.body)
         else_ret = bool(st.orelse) and _always_returns(st.orelse)
         if body_ret and else_ret:
@@ -136,6 +156,32 @@ def _restructure(stmts, on_return):
             return out
         raise _NoRestructure()
     return out
+
+
+def _substitute_straight_line(stmts):
+    """`t = e1; t = f(t); yield g(t)` -> `yield g(f(e1))`: plain assignments to names in front of the last statement are
+    substituted into it (each assigned expression is used as many times as the name was read; all are pure reads here)"""
+    if len(stmts) < 2:
+        return stmts
+    env = {}
+
+    class S(ast.NodeTransformer):
+        def visit_Name(self, n):
+            if isinstance(n.ctx, ast.Load) and n.id in env:
+                return copy.deepcopy(env[n.id])
+            return n
+
+    for st in stmts[:-1]:
+        if not (isinstance(st, ast.Assign) and len(st.targets) == 1 and isinstance(st.targets[0], ast.Name)):
+            return stmts
+        if any(isinstance(x, (ast.Call, ast.Yield, ast.Lambda, ast.ListComp, ast.GeneratorExp, ast.DictComp, ast.SetComp)) for x in ast.walk(st.value)):
+            # a computing expression is substituted only if it will be read exactly once
+            reads = sum(1 for later in stmts[stmts.index(st) + 1:] for x in ast.walk(later) if isinstance(x, ast.Name) and x.id == st.targets[0].id and isinstance(x.ctx, ast.Load))
+            if reads != 1:
+                return stmts
+        env[st.targets[0].id] = S().visit(copy.deepcopy(st.value))
+    last = S().visit(copy.deepcopy(stmts[-1]))
+    return [ast.fix_missing_locations(last)]
 
 
 class _ReturnToRaise(ast.NodeTransformer):
@@ -400,10 +446,39 @@ class Inliner(object):
         stored = _stored_names(fn)
         pre = []
         m2 = {}
+        def complex_arg(v):
+            return any(isinstance(x, (ast.Call, ast.ListComp, ast.SetComp, ast.DictComp, ast.GeneratorExp, ast.Lambda, ast.Yield, ast.Await, ast.NamedExpr)) for x in ast.walk(v))
+
+        def use_profile(pname):
+            """(number of reads of the parameter, whether any read is evaluated conditionally or repeatedly)"""
+            count = [0]
+            nested = [False]
+
+            def visit(n, inside):
+                if isinstance(n, ast.Name) and n.id == pname and isinstance(n.ctx, ast.Load):
+                    count[0] += 1
+                    if inside:
+                        nested[0] = True
+                    return
+                here = inside or isinstance(n, (ast.For, ast.While, ast.If, ast.Try, ast.ListComp, ast.SetComp, ast.DictComp, ast.GeneratorExp, ast.Lambda, ast.IfExp, ast.BoolOp, ast.With))
+                for c in ast.iter_child_nodes(n):
+                    visit(c, here)
+
+            for st in body:
+                visit(st, False)
+            return count[0], nested[0]
+
         for p, v in mapping.items():
-            if p in stored:
+            needs_tmp = p in stored
+            if not needs_tmp and complex_arg(v):
+                cnt, nest = use_profile(p)
+                # an argument that computes something is evaluated exactly once, where the call stood
+                needs_tmp = cnt != 1 or nest
+            if needs_tmp:
                 tmp = p + tag
-                pre.append(ast.Assign(targets=[ast.Name(id=tmp, ctx=ast.Store())], value=copy.deepcopy(v), lineno=lineno, col_offset=0))
+                asg = ast.Assign(targets=[ast.Name(id=tmp, ctx=ast.Store())], value=copy.deepcopy(v), lineno=lineno, col_offset=0)
+                asg._pre = True  # an argument evaluated at the call: still to be normalised in the caller's context
+                pre.append(asg)
                 m2[p] = ast.Name(id=tmp, ctx=ast.Load())
             else:
                 m2[p] = v
@@ -573,7 +648,14 @@ class Inliner(object):
                             done = None
                     if done is not None:
                         self.note(cand, True)
-                        return done
+                        out_ = []
+                        for st_ in done:
+                            if getattr(st_, "_pre", False):
+                                st_._pre = False
+                                out_.extend(self.stmt(fi, st_, stack))
+                            else:
+                                out_.append(st_)
+                        return out_
                     self.note(cand, False)
         # a multi-statement helper called inside a simple statement: its body is hoisted in front, the call becomes a temporary
         pre = []
@@ -603,7 +685,42 @@ class Inliner(object):
     def hoist(self, fi, e, stack, pre):
         inl = self
 
+        def needs_statements(comp):
+            """does the comprehension call a helper that only a statement-level splice can expand?"""
+            for c in ast.walk(comp):
+                if isinstance(c, ast.Call):
+                    cand, _ = inl.callee(fi, c)
+                    if cand is not None and cand not in stack:
+                        b0 = _strip_doc(cand.node_prep.body)
+                        if not (len(b0) == 1 and isinstance(b0[0], ast.Return)):
+                            return True
+            return False
+
         def walk(n):
+            if isinstance(n, (ast.ListComp, ast.SetComp, ast.DictComp)) and needs_statements(n):
+                # the comprehension becomes an explicit loop in front of the statement, so that the helper can be spliced in
+                inl.counter += 1
+                tmp = "__c%d" % inl.counter
+                ln = getattr(n, "lineno", 1)
+                if isinstance(n, ast.DictComp):
+                    init = ast.Dict(keys=[], values=[])
+                    core = ast.Assign(targets=[ast.Subscript(value=ast.Name(id=tmp, ctx=ast.Load()), slice=n.key, ctx=ast.Store())], value=n.value, lineno=ln, col_offset=0)
+                elif isinstance(n, ast.ListComp):
+                    init = ast.List(elts=[], ctx=ast.Load())
+                    core = ast.Expr(value=ast.Call(func=ast.Attribute(value=ast.Name(id=tmp, ctx=ast.Load()), attr="append", ctx=ast.Load()), args=[n.elt], keywords=[]), lineno=ln, col_offset=0)
+                else:
+                    init = ast.Call(func=ast.Name(id="set", ctx=ast.Load()), args=[], keywords=[])
+                    core = ast.Expr(value=ast.Call(func=ast.Attribute(value=ast.Name(id=tmp, ctx=ast.Load()), attr="add", ctx=ast.Load()), args=[n.elt], keywords=[]), lineno=ln, col_offset=0)
+                body = [core]
+                for g in reversed(n.generators):
+                    for cond in reversed(g.ifs):
+                        body = [ast.If(test=cond, body=body, orelse=[], lineno=ln, col_offset=0)]
+                    body = [ast.For(target=g.target, iter=g.iter, body=body, orelse=[], lineno=ln, col_offset=0)]
+                loop = [ast.Assign(targets=[ast.Name(id=tmp, ctx=ast.Store())], value=init, lineno=ln, col_offset=0)] + body
+                for st_ in loop:
+                    ast.fix_missing_locations(st_)
+                pre.extend(inl.block(fi, loop, stack))
+                return ast.copy_location(ast.Name(id=tmp, ctx=ast.Load()), n)
             if isinstance(n, (ast.Lambda, ast.GeneratorExp, ast.ListComp, ast.SetComp, ast.DictComp)):
                 return n
             if isinstance(n, ast.IfExp):
@@ -612,16 +729,30 @@ class Inliner(object):
             if isinstance(n, ast.BoolOp):
                 n.values[0] = walk(n.values[0])
                 return n
+            if isinstance(n, ast.Call) and n.args and isinstance(n.args[0], ast.Call):
+                fq = n.func.id if isinstance(n.func, ast.Name) else (n.func.attr if isinstance(n.func, ast.Attribute) else None)
+                if fq in ("list", "tuple", "sorted", "sum", "dict", "set", "frozenset", "any", "all", "min", "max", "join", "extend", "update", "writerows", "writelines", "enumerate", "zip", "reversed") or (fq == "next" and len(n.args) == 2):
+                    n.args[0]._whole_consumer = fq != "next" or True
             for field, value in list(ast.iter_fields(n)):
                 if isinstance(value, ast.expr):
                     setattr(n, field, walk(value))
                 elif isinstance(value, list):
                     setattr(n, field, [walk(x) if isinstance(x, ast.expr) else (setattr(x, "value", walk(x.value)) or x) if isinstance(x, ast.keyword) else x for x in value])
+            if isinstance(n, ast.Call) and isinstance(n.func, ast.Name) and n.func.id == "next" and len(n.args) == 2 and isinstance(n.args[0], ast.Call) and isinstance(n.args[0].func, ast.Name) and n.args[0].func.id == "iter" and n.args[0].args and isinstance(n.args[0].args[0], ast.Name) and n.args[0].args[0].id.startswith("__g"):
+                n.args[0] = n.args[0].args[0]
+            if isinstance(n, ast.Call) and isinstance(n.func, ast.Name) and n.func.id == "next" and len(n.args) == 2 and isinstance(n.args[0], ast.Name) and n.args[0].id.startswith("__g"):
+                # next(<materialised generator>, default): its first item, or the default
+                lst = n.args[0]
+                return ast.copy_location(ast.IfExp(test=ast.Name(id=lst.id, ctx=ast.Load()), body=ast.Subscript(value=ast.Name(id=lst.id, ctx=ast.Load()), slice=ast.Constant(value=0), ctx=ast.Load()), orelse=n.args[1]), n)
             if isinstance(n, ast.Call):
                 if inl.gen_as_expression(fi, copy.deepcopy(n), stack) is None:
                     m = inl.gen_materialised(fi, n, stack, pre)
                     if m is not None:
-                        return m
+                        # a generator object is consumed step by step unless it goes straight into something that
+                        # exhausts it: everywhere else the collected items are wrapped in iter(), which keeps that meaning
+                        if getattr(n, "_whole_consumer", False):
+                            return m
+                        return ast.copy_location(ast.Call(func=ast.Name(id="iter", ctx=ast.Load()), args=[m], keywords=[]), n)
                 cand, recv = inl.callee(fi, n)
                 if cand is None or cand in stack:
                     return n
@@ -665,12 +796,7 @@ class Inliner(object):
         if not (len(body0) == 1 and isinstance(body0[0], ast.For) and not body0[0].orelse):
             return None
         lp = body0[0]
-        inner = lp.body
-        conds = []
-        while len(inner) == 1 and isinstance(inner[0], ast.If) and not inner[0].orelse:
-            conds.append(inner[0].test)
-            inner = inner[0].body
-        if not (len(inner) == 1 and isinstance(inner[0], ast.Expr) and isinstance(inner[0].value, ast.Yield) and inner[0].value.value is not None):
+        if sum(1 for x in ast.walk(lp) if isinstance(x, ast.Yield)) != 1:
             return None
         mapping = self.bind(cand, recv, call)
         if mapping is None:
@@ -685,6 +811,7 @@ class Inliner(object):
         while len(inner) == 1 and isinstance(inner[0], ast.If) and not inner[0].orelse:
             conds.append(inner[0].test)
             inner = inner[0].body
+        inner = _substitute_straight_line(inner)
         if not (len(inner) == 1 and isinstance(inner[0], ast.Expr) and isinstance(inner[0].value, ast.Yield)):
             return None
         self.note(cand, True)
@@ -1040,6 +1167,7 @@ def propagate_name_copies(node):
             stores[n.name] = stores.get(n.name, 0) + 1
     params = {a.arg for a in node.args.args} | ({node.args.kwarg.arg} if node.args.kwarg else set()) | ({node.args.vararg.arg} if node.args.vararg else set())
     attr_stores = {n.attr for n in ast.walk(node) if isinstance(n, ast.Attribute) and isinstance(n.ctx, (ast.Store, ast.Del))}
+    plain_assigned = {n.targets[0].id for n in ast.walk(node) if isinstance(n, ast.Assign) and len(n.targets) == 1 and isinstance(n.targets[0], ast.Name)}
 
     def stable(v):
         """an expression whose value cannot change inside this function: a constant, a parameter that is never reassigned,
@@ -1047,7 +1175,10 @@ def propagate_name_copies(node):
         if isinstance(v, ast.Constant):
             return not isinstance(v.value, str) or len(v.value) < 40
         if isinstance(v, ast.Name):
-            return v.id in params and not stores.get(v.id)
+            if v.id in params:
+                return not stores.get(v.id)
+            # another local that is itself assigned exactly once (and is not a loop / with / except target)
+            return stores.get(v.id) == 1 and v.id in plain_assigned
         if isinstance(v, ast.Attribute):
             return v.attr not in attr_stores and stable(v.value)
         return False
@@ -1057,7 +1188,9 @@ def propagate_name_copies(node):
         if isinstance(n, ast.Assign) and len(n.targets) == 1 and isinstance(n.targets[0], ast.Name):
             t = n.targets[0].id
             # only temporaries the normaliser introduced itself (inlining / record scalarisation), never the author's locals
-            if stores.get(t) == 1 and t not in params and ("__i" in t or t.startswith("__cm") or t.startswith("__r") or "__" in t[2:]) and stable(n.value):
+            is_temp = "__i" in t or t.startswith("__cm") or t.startswith("__r") or "__" in t[2:]
+            # a plain alias `t = other_name` is removed for any local; richer values only for the normaliser's own temporaries
+            if stores.get(t) == 1 and t not in params and (is_temp or (isinstance(n.value, ast.Name) and ("__" in n.value.id))) and stable(n.value):
                 copies[t] = (n.value, n)
     if not copies:
         return node
@@ -1072,7 +1205,12 @@ def propagate_name_copies(node):
 
         def visit_Name(self, n):
             if isinstance(n.ctx, ast.Load) and n.id in copies:
-                return ast.copy_location(copy.deepcopy(copies[n.id][0]), n)
+                v = copies[n.id][0]
+                hops = 0
+                while isinstance(v, ast.Name) and v.id in copies and hops < 20:
+                    v = copies[v.id][0]
+                    hops += 1
+                return ast.copy_location(copy.deepcopy(v), n)
             return n
 
         def visit_Expr(self, n):
@@ -1192,6 +1330,12 @@ def normalise(idx):
                 n = scalarise_namedtuples(idx, fi, n)
                 n = propagate_name_copies(n)
                 n = normalize_pre.expand_partials(idx, fi.module, fi, n)
+                n = normalize_pre.syntactic(idx, fi, n)
+                n.body = normalize_pre.while_to_for(n.body)
+                n.body = normalize_pre.unroll_const_loops(idx, fi.module, fi, n.body)
+                n.body = normalize_pre.or_assignments(n.body)
+                n.body = normalize_pre.append_loops(n.body)
+                n.body = normalize_pre.iter_next(n.body)
                 n.body = fold_block(n.body)
                 ast.fix_missing_locations(n)
             except RecursionError:
